@@ -139,3 +139,52 @@ def report(ctx, rule_a, rule_b):
                  input="P.param.deserialize_value('t', '[]') for t = param.Tuple(default=(), length=0) -> [] instead of ()")
     else:
         ctx.ok(rule_b, g, g.node, "codec model: %d decoded values (falsy ones included) all go through <parameter>.deserialize" % n2)
+
+
+def namespace_entry_points(ctx, rule):
+    """The `.param` entry points of serialization (Parameters.serialize_parameters / serialize_value / deserialize_parameters)
+    interpreted abstractly: the `subset` the caller gives -- None, meaning every parameter, included -- reaches the serializer
+    unchanged, and what the serializer returns is handed back unchanged.  A default subset computed here (e.g. one that
+    leaves out constant parameters, which the constructor does accept) silently drops legal state from the JSON."""
+    from engine.absint import Interp, Obj, Unsupported
+    from engine.loader import AnalysisError
+    P_ = "param.parameterized."
+    f = ctx.repo.func(P_ + "Parameters.serialize_parameters")
+    problems, n = [], 0
+    for subset in (None, ["a"], ["a", "c"]):
+        seen = []
+        result = Obj("serialized_text")
+        serializer = Obj("json_serializer")
+        target = Obj("object")
+        pobjs = {"a": Obj("P_a", constant=False, readonly=False), "c": Obj("P_c", constant=True, readonly=False), "name": Obj("P_name", constant=True, readonly=False)}
+
+        def hook(fn, args, kwargs):
+            if fn.endswith(".serialize_parameters") and not fn.startswith("self_."):
+                seen.append((args[0] if args else None, kwargs.get("subset", args[1] if len(args) > 1 else "<not given>")))
+                return result
+            if fn.endswith(".objects"):
+                return dict(pobjs)
+            if fn == "list":
+                return list(args[0]) if args and isinstance(args[0], (list, tuple, dict)) else NotImplemented
+            return NotImplemented
+        ns = Obj("ns", self_or_cls=target, self=target, cls=Obj("Cls"))
+        it = Interp(ctx.hier, dyn=P_ + "Parameters", inline=lambda m: False, call_hook=hook, globals={"Parameter": Obj("Parameter", _serializers={"json": serializer})})
+        try:
+            outs = it.run_all(f, {"self_": ns, "subset": None if subset is None else list(subset), "mode": "json"})
+        except Unsupported as e:
+            raise AnalysisError("%s: absint cannot interpret Parameters.serialize_parameters: %s" % (rule, e))
+        if len(outs) != 1 or outs[0].imprecise or outs[0].kind != "return":
+            raise AnalysisError("%s: Parameters.serialize_parameters is not interpretable precisely (%s)" % (rule, outs[0].notes[:2] if outs else "no outcome"))
+        n += 1
+        if len(seen) != 1 or seen[0][0] is not target:
+            problems.append("serialize_parameters(subset=%r) calls the serializer %d time(s)" % (subset, len(seen)))
+        elif (subset is None and seen[0][1] is not None) or (subset is not None and seen[0][1] != subset):
+            problems.append("serialize_parameters(subset=%r) hands the serializer subset=%r: %s" % (subset, seen[0][1],
+                            "parameters left out of a default subset (constant ones, ...) are legal state that the rebuilt object loses" if subset is None else "not the subset asked for"))
+        elif outs[0].value is not result:
+            problems.append("serialize_parameters(subset=%r) does not return what the serializer produced" % (subset,))
+    ctx.abstract_cases += n
+    if problems:
+        ctx.fail(rule, f, f.node, "entry-point model: %s (%d disagreeing case(s))" % (problems[0], len(problems)), key=f.qualname + "::entry-point-model")
+    else:
+        ctx.ok(rule, f, f.node, "entry-point model: the subset given (None included) reaches the serializer unchanged and its result is returned unchanged (%d cases)" % n)
